@@ -558,4 +558,108 @@ def no_stale(ctx):
                        'the OPD refers to an earlier lens state', min_methods=1)
 
 
-RULES = [no_stale, opd_formula, sphere, pipeline, consumers]
+def gauss_quad(ctx):
+    """The Gaussian-quadrature pupil sampling (Forbes 1988) used by the
+    OPD-difference operand: ring radii are sqrt((1 + x_j) / 2) and ring
+    weights w_j / 4 for the Gauss-Legendre nodes x_j and weights w_j of order
+    n; the tables are compared with nodes recomputed here."""
+    from ..match import find, find_seq
+    import numpy as _np
+    P = ctx.P
+    res = Result('GAUSS-QUAD', 'Gaussian quadrature sampling: radii and '
+                 'weights tables equal the Gauss-Legendre values for 1..6 '
+                 'rings (to 5e-5: the outer radius for 6 rings is tabulated as 0.98300 against 0.98297); points are ring-major over 3 (or 1) arms '
+                 'and the operand repeats each ring weight over the arms in '
+                 'the same order')
+    fr = P.func('GaussianQuadrature._get_radius')
+    fw = P.func('GaussianQuadrature.get_weights')
+    fg = P.func('GaussianQuadrature.generate_points')
+    res.saw(fr), res.saw(fw), res.saw(fg)
+
+    def table(f):
+        for st in ast.walk(f.node):
+            if isinstance(st, ast.Dict) and st.keys and all(
+                    isinstance(k, ast.Constant) for k in st.keys):
+                out = {}
+                for k, v in zip(st.keys, st.values):
+                    if isinstance(v, ast.Call) and v.args and isinstance(
+                            v.args[0], ast.List):
+                        out[k.value] = [float(ast.literal_eval(x))
+                                        for x in v.args[0].elts]
+                return out
+        return None
+    tr, tw = table(fr), table(fw)
+    if not tr or not tw:
+        raise AnalysisError('GAUSS-QUAD: tables not found')
+    for n in range(1, 7):
+        x, w = _np.polynomial.legendre.leggauss(n)
+        rad = _np.sqrt((1 + x) / 2)
+        wt = w / 4
+        okr = n in tr and len(tr[n]) == n and \
+            max(abs(a - b) for a, b in zip(tr[n], rad)) < 5e-5
+        okw = n in tw and len(tw[n]) == n and \
+            max(abs(a - b) for a, b in zip(tw[n], wt)) < 2e-5
+        if okr and okw:
+            res.ok(f'{n} rings: radii and weights are the Gauss-Legendre '
+                   f'values')
+        else:
+            res.fail(ctx.finding(
+                'GAUSS-QUAD', fr if not okr else fw, None,
+                f'{n} rings: ' + ('radii ' if not okr else 'weights ') +
+                f'{(tr if not okr else tw).get(n)} differ from the '
+                f'Gauss-Legendre values '
+                f'{[round(float(v), 5) for v in (rad if not okr else wt)]}',
+                construct=f'gaussian quadrature table n={n}'))
+    if set(tr) == set(tw) == set(range(1, 7)):
+        res.ok('both tables cover 1..6 rings')
+    else:
+        res.fail(ctx.finding('GAUSS-QUAD', fw, None,
+                             'radius and weight tables cover different ring '
+                             'counts', construct='table keys'))
+    # ring-major point order, three arms at -60, 0, +60 degrees
+    arms = None
+    for nd, b in find(fg, 'np.array([$a, $b, $c])'):
+        try:
+            arms = [float(ast.literal_eval(b[k])) for k in 'abc']
+        except Exception:
+            pass
+    import math
+    if arms and all(abs(a - t) < 1e-6 for a, t in
+                    zip(arms, (-math.pi / 3, 0.0, math.pi / 3))) and \
+            find_seq(fg, ['$r = self._get_radius(num_rings)',
+                          'self.x = np.outer($r, np.cos($t)).flatten() * '
+                          '(1 - vx)',
+                          'self.y = np.outer($r, np.sin($t)).flatten() * '
+                          '(1 - vy)']):
+        res.ok('points: outer(radius, cos/sin theta).flatten() (ring-major), '
+               'arms at -60, 0, 60 degrees')
+    else:
+        res.fail(ctx.finding('GAUSS-QUAD', fg, fg.node,
+                             'Gaussian quadrature points are not ring-major '
+                             'over the arms -60, 0, 60 degrees',
+                             construct='generate_points layout'))
+    # weights scaled by the number of arm repetitions: 6 / arms
+    sw = Code(P, fw)
+    if 'weights *= 6.0' in sw and 'weights *= 2.0' in sw and \
+            sw.index('weights *= 6.0') < sw.index('weights *= 2.0') and \
+            find(fw, 'if self.is_symmetric:\n    weights *= 6.0\nelse:\n'
+                     '    weights *= 2.0'):
+        res.ok('weights x 6 (one arm) or x 2 (three arms)')
+    else:
+        res.fail(ctx.finding('GAUSS-QUAD', fw, fw.node,
+                             'weight scaling per arm changed',
+                             construct='weights scaling'))
+    od = P.func('RayOperand.OPD_difference')
+    res.saw(od)
+    if find(od, 'np.repeat($d.get_weights(num_rays), 3)') and \
+            find(od, '$d.generate_points(num_rings=num_rays)'):
+        res.ok('operand: each ring weight repeated over its 3 arms '
+               '(ring-major), same ring count for points and weights')
+    else:
+        res.fail(ctx.finding('GAUSS-QUAD', od, od.node,
+                             'operand weights are not laid out like the '
+                             'points', construct='OPD_difference weights'))
+    return res
+
+
+RULES = [no_stale, gauss_quad, opd_formula, sphere, pipeline, consumers]
